@@ -267,7 +267,7 @@ fn hostile_files(sub: &str, jail: &Jail, files: Vec<FFile>, stripped: bool, dest
 // ------------------------------------------------------------------ benign subset: file-system model
 
 /// What a package says must exist under the target, from an independent decoding.
-fn model(x: &[u8]) -> Option<Vec<(String, u16, Vec<u8>, String)>> {
+pub fn model(x: &[u8]) -> Option<Vec<(String, u16, Vec<u8>, String)>> {
     let (_, _, hdr, l) = scan(x)?;
     let get = |tag: u32| hdr.entries.iter().skip(1).find(|e| e.tag == tag).and_then(|e| value(e, &hdr.store).ok());
     let strs = |v: Option<Val>| match v {
